@@ -12,13 +12,19 @@ void chk_describe(FILE *f) { eng_describe(f); }
 int LLVMFuzzerTestOneInput(const uint8_t *data, size_t size)
 {
         static bool init;
-        if (!init) { init = true; MY_PROP = "C03"; PROG_NAME = "fuzz_target"; SAN_REPLAY = true; ABORT_ON_VIOL = true; }
+        static bool c03;
+        if (!init) {
+                /* VERIF_FUZZ_PROP selects whose monitors are fatal: C03 (default; sanitizer reports, canaries, half comparison; unspecified cells included)
+                 * or one of the engine properties C01 / C11 / C14 / C15 / C18 (their step monitors; unspecified cells excluded) */
+                const char *p = getenv("VERIF_FUZZ_PROP");
+                init = true; MY_PROP = (p && *p) ? strdup(p) : "C03"; PROG_NAME = "fuzz_target"; c03 = strcmp(MY_PROP, "C03") == 0; SAN_REPLAY = c03; ABORT_ON_VIOL = true;
+        }
         if (size < 8) return 0;
         verif_case_reset();
         CUR_CASE = (long)(hash_bytes(data, size, 1) & 0x7fffffff);   /* handler decisions are a function of the input: artifacts replay */
         FUZZ_DATA = data; FUZZ_LEN = size; FUZZ_POS = 0;
         eng_default_profile();
-        EP.unspecified_cells = true; EP.p_weird = 25; EP.p_long_line = 20; EP.p_event_step = 60; EP.p_cut = 20; EP.max_cmds = 24;
+        EP.unspecified_cells = c03; EP.p_weird = 25; EP.p_long_line = 20; EP.p_event_step = 60; EP.p_cut = 20; EP.max_cmds = 24;
         eng_gen_table();
         eng_gen_input(1 + rn(5));
         eng_random_schedules();
